@@ -306,9 +306,11 @@ int mux_headless_tail(const pktlist_t *pk, int serial, int first, buf_t *out){
    ignore streams it does not decode. */
 void mux_add_foreign(const buf_t *link, int fserial, uint64_t seed, int where, buf_t *out){
   rng_t r; rng_seed(&r,seed,0xf0e1,(uint64_t)fserial); pageinfo_t *pg=NULL; int np=page_scan(link->p,link->n,&pg);
+  int bosfirst=(where&2)!=0; where&=1;   /* bit 1: the foreign BOS page comes BEFORE the Vorbis BOS page (any order inside the BOS group is legal) */
   { int audio=0; for(int i=0;i<np;i++) if(pg[i].granule!=0) audio++; if(audio<2) where=1; }   /* no foreign page between the headers and the first audio page (see DESIGN section 13) */
   ogg_stream_state fs; ogg_page fo; ogg_packet fp; unsigned char body[600]; ogg_stream_init(&fs,fserial); ogg_int64_t fg=0; long pno=0;
   memset(&fp,0,sizeof fp); memset(body,0,sizeof body); memcpy(body,"\x80theora",7); fp.packet=body; fp.bytes=42; fp.b_o_s=1; fp.packetno=pno++; ogg_stream_packetin(&fs,&fp);
+  if(bosfirst){ while(ogg_stream_flush(&fs,&fo)){ buf_add(out,fo.header,fo.header_len); buf_add(out,fo.body,fo.body_len); } }
   for(int i=0;i<np;i++){
     int last=(i==np-1);
     if(last && where==0){ /* foreign EOS before the Vorbis EOS page */
